@@ -43,6 +43,7 @@ func H_C03_binary() {
 	da, db := drawCompat(vrt.Param("ra"), vrt.Param("rb"), vrt.Param("maxdim"))
 	a, ae := mk("x", da, vrt.Bool("ta"))
 	b, be := mk("y", db, vrt.Bool("tb"))
+	maybeUsedTogether(a, b)
 	y, err := applyBinary(op, a, b)
 	vrt.Assert("compatible shapes accepted", err == nil)
 	if err != nil {
@@ -76,6 +77,7 @@ func H_C03_cmp() {
 	dims := symDims("d", r, vrt.Param("maxdim"))
 	a, ae := mk("x", dims, vrt.Bool("ta"))
 	b, be := mk("y", dims, vrt.Bool("tb"))
+	maybeUsedTogether(a, b)
 	if op == "Eq" || op == "Ne" || op == "Equals" {
 		for k := range ae {
 			tieOrFar(ae[k], be[k])
